@@ -687,6 +687,164 @@ def _assign_to_return(stmts, target_src):
     return out
 
 
+# ------------------------------------------------------------------------------------------------ backward slices
+def _uses(node):
+    """names an expression reads: maximal dotted chains (`segment.ivt_address`, not also `segment`) and bare names"""
+    out = set()
+
+    def walk(n):
+        if isinstance(n, (ast.Name, ast.Attribute)):
+            d = _dotted(n)
+            if d is not None:
+                if not isinstance(getattr(n, "ctx", None), ast.Store):
+                    out.add(d)
+                return
+        for c in ast.iter_child_nodes(n):
+            walk(c)
+
+    walk(node)
+    return out
+
+
+def _stores(node):
+    out = set()
+    for n in ast.walk(node):
+        if isinstance(n, (ast.Name, ast.Attribute)) and isinstance(getattr(n, "ctx", None), (ast.Store, ast.Del)):
+            d = _dotted(n)
+            if d:
+                out.add(d)
+        elif isinstance(n, (ast.Assign, ast.AugAssign, ast.AnnAssign)):
+            for tg in (n.targets if isinstance(n, ast.Assign) else [n.target]):
+                for e in ast.walk(tg):
+                    d = _dotted(e)
+                    if d:
+                        out.add(d)
+    return out
+
+
+def _prefix_to(stmts, site):
+    """the statements executed before `site` on the way to it (outer blocks first; conditions on the way are assumed to hold)"""
+    for i, st in enumerate(stmts):
+        if st is site:
+            return list(stmts[:i])
+        for field in ("body", "orelse", "finalbody", "handlers"):
+            sub = getattr(st, field, None)
+            if not isinstance(sub, list):
+                continue
+            for blk in ([h.body for h in sub] if field == "handlers" else [sub]):
+                if blk and isinstance(blk[0], ast.stmt):
+                    r = _prefix_to(blk, site)
+                    if r is not None:
+                        return list(stmts[:i]) + r
+    return None
+
+
+def _bslice(stmts, needed, params):
+    """statements of `stmts` (a straight-line prefix, `if`s included) the values named in `needed` depend on; `needed` is updated to
+    what must be known before `stmts`.  Parameters are inputs: an assignment to a parameter-named value is never followed."""
+    kept = []
+    for st in reversed(stmts):
+        needed -= params
+        if isinstance(st, (ast.Assign, ast.AnnAssign, ast.AugAssign)):
+            tgt = st.targets[0] if isinstance(st, ast.Assign) and len(st.targets) == 1 else getattr(st, "target", None)
+            key = _dotted(tgt) if tgt is not None else None
+            if key is None:
+                if _stores(st) & needed:
+                    raise Untranslatable("slice: a needed value is assigned through an unsupported target")
+                continue
+            if key in needed and getattr(st, "value", None) is not None:
+                kept.append(st)
+                if isinstance(st, ast.AugAssign):
+                    needed |= _uses(st.value) | {key}
+                else:
+                    needed.discard(key)
+                    needed |= _uses(st.value)
+            continue
+        if isinstance(st, ast.If):
+            nb, no = set(needed), set(needed)
+            kb, ko = _bslice(st.body, nb, params), _bslice(st.orelse, no, params)
+            if kb or ko:
+                st2 = copy.copy(st)
+                st2.body, st2.orelse = (kb or [ast.Pass()]), ko
+                kept.append(st2)
+                needed.clear()
+                needed |= nb | no | _uses(st.test)
+            continue
+        if isinstance(st, (ast.Expr, ast.Return, ast.Raise, ast.Pass, ast.Assert, ast.Import, ast.ImportFrom, ast.FunctionDef)):
+            continue
+        if _stores(st) & (needed - params):
+            raise Untranslatable(f"slice: a needed value is assigned inside a {type(st).__name__}")
+    needed -= params
+    kept.reverse()
+    return kept
+
+
+def slice_value(fn, site, value, params):
+    """`value` as computed at statement `site` of `fn`: the backward slice of the preceding statements + `return value`;
+    attribute-valued temporaries (`segment.csf_address = …`) become locals"""
+    prefix = _prefix_to(fn.body, site)
+    if prefix is None:
+        return None
+    params = set(params)
+    kept = _bslice(prefix, _uses(value) - params, params)
+    ren = {}
+    for st in ast.walk(ast.Module(body=kept, type_ignores=[])):
+        if isinstance(st, (ast.Assign, ast.AnnAssign, ast.AugAssign)):
+            tgt = st.targets[0] if isinstance(st, ast.Assign) else st.target
+            d = _dotted(tgt)
+            if d and "." in d:
+                ren[d] = d.replace(".", "_")
+    stmts = kept + [ast.Return(value=value)]
+    if ren:
+        stmts = [_Subst(ren).visit(copy.deepcopy(x)) for x in stmts]
+    return stmts
+
+
+def _rename(fn, table):
+    for n in ast.walk(fn):
+        if isinstance(n, ast.Name) and n.id in table:
+            n.id = table[n.id]
+        elif isinstance(n, ast.arg) and n.arg in table:
+            n.arg = table[n.arg]
+    return fn
+
+
+def _bound_to_call(fn, suffix):
+    """name of the first local bound to a call whose callee (dotted) ends with `suffix`"""
+    found = []
+    for n in ast.walk(fn):
+        if isinstance(n, ast.Assign) and len(n.targets) == 1 and isinstance(n.targets[0], ast.Name) and isinstance(n.value, ast.Call):
+            d = _dotted(n.value.func) or ""
+            if d.endswith(suffix):
+                found.append((n.lineno, n.targets[0].id))
+    return min(found)[1] if found else None
+
+
+def _ret_ctor(fn):
+    """(return statement, constructor call) of the last `return cls(…)` of fn (nested functions excluded)"""
+    best = None
+
+    def walk(n):
+        nonlocal best
+        for c in ast.iter_child_nodes(n):
+            if isinstance(c, (ast.FunctionDef, ast.AsyncFunctionDef, ast.Lambda)):
+                continue
+            if isinstance(c, ast.Return) and isinstance(c.value, ast.Call) and isinstance(c.value.func, ast.Name) and c.value.func.id == "cls":
+                if best is None or c.lineno >= best[0].lineno:
+                    best = (c, c.value)
+            walk(c)
+
+    walk(fn)
+    return best
+
+
+def _ctor_arg(call, pos, kw):
+    for k in call.keywords:
+        if k.arg == kw:
+            return k.value
+    return call.args[pos] if len(call.args) > pos and not isinstance(call.args[pos], ast.Starred) else None
+
+
 def _names(node, ctx=None):
     return {n.id for n in ast.walk(node) if isinstance(n, ast.Name) and (ctx is None or isinstance(n.ctx, ctx))}
 
@@ -886,90 +1044,189 @@ def gen_HabFuns():
         from_stmts("calculate_location", ["initial_load_size", "app_len", "start_address"],
                    lambda: cls_fun(HCMD, "SecInstallSecretKey", "calculate_location").body))
 
+    # ---- 7.-13.: values computed INSIDE larger methods.  Each is located by what it is used for (the `offset` / segment handed to the
+    # returned `cls(…)`, the attribute of the segment object that is assigned, the keyword of ImageBlock(…), the bound of a slice …),
+    # never by the name of a local or the position of a statement, and is extracted as the backward slice of the statements before
+    # that site (temporaries, if/else around the assignment, renamed locals all end in the same value).
+    def prepared(rel, cls, fn_name, subst=SUBST, canon=None):
+        """deep copy of the method: desugared, segment / helper locals renamed to the names of the substitution table, substituted"""
+        f = cls_fun(rel, cls, fn_name)
+        if f is None:
+            return None
+        f = _Desugar().visit(copy.deepcopy(f))
+        ren = {}
+        rc = _ret_ctor(f)
+        if rc is not None:
+            seg = _ctor_arg(rc[1], 1, "segment")
+            if isinstance(seg, ast.Name) and seg.id != "segment":
+                ren[seg.id] = "segment"
+        for suffix, std in (canon or {}).items():
+            nm = _bound_to_call(f, suffix)
+            if nm and nm != std:
+                ren[nm] = std
+        if ren:
+            _rename(f, ren)
+        f.body = [_Subst(subst).visit(st) for st in f.body]
+        return ast.fix_missing_locations(f)
+
+    def sliced(name, params, rel, cls, fn_name, pick, canon=None):
+        """pick(prepared method) -> (site statement, value expression) | None"""
+        def b():
+            f = prepared(rel, cls, fn_name, canon=canon)
+            if f is None:
+                return None
+            got = pick(f)
+            if not got or got[1] is None:
+                return None
+            stmts = slice_value(f, got[0], got[1], params)
+            return None if stmts is None else _synth(name, params, stmts)
+        return b
+
+    def at_return(attr=None, arg=None):
+        """value at the final `return cls(…)`: attribute `attr` of the segment object / constructor argument `arg` = (position, keyword)"""
+        def pick(f):
+            rc = _ret_ctor(f)
+            if rc is None:
+                return None
+            if attr is not None:
+                seg = _ctor_arg(rc[1], 1, "segment")
+                return None if seg is None else (rc[0], ast.Attribute(value=copy.deepcopy(seg), attr=attr, ctx=ast.Load()))
+            return rc[0], _ctor_arg(rc[1], *arg)
+        return pick
+
+    def at_assign(key):
+        """value of the first assignment to `key` (dotted text after renaming / substitution)"""
+        def pick(f):
+            sites = [n for n in ast.walk(f) if isinstance(n, ast.Assign) and len(n.targets) == 1 and _dotted(n.targets[0]) == key]
+            if not sites:
+                return None
+            st = min(sites, key=lambda n: n.lineno)
+            return st, st.value
+        return pick
+
+    OFFSET_ARG = (0, "offset")
+    IVT_PARSE = {"IvtHabSegment.parse": "ivt", "BdtHabSegment.parse": "bdt"}
+
     # 7. IVT pointers (IvtHabSegment.load_from_config)
-    def ivt_body():
-        f = cls_fun(HSEG, "IvtHabSegment", "load_from_config")
-        return f.body if f else None
-
-    def ivt_csf():
-        for s in ivt_body() or []:
-            if isinstance(s, ast.If) and "flags" in ast.unparse(s.test):
-                return [s]
-        return None
-
     add("ivtCsfAddress", f"{HSEG}::IvtHabSegment.load_from_config (csf_address)",
         ["flags", "initial_load_size", "app_len", "ivt_offset", "ivt_address"], "Int",
-        from_stmts("ivt_csf", ["flags", "initial_load_size", "app_len", "ivt_offset", "ivt_address"], ivt_csf, target="segment.csf_address"))
+        sliced("ivt_csf", ["flags", "initial_load_size", "app_len", "ivt_offset", "ivt_address"], HSEG, "IvtHabSegment", "load_from_config",
+               at_return(attr="csf_address")))
+    # `segment.ivt_address` is an input of the other pointers (substitution table), so its own definition is read at the assignment
+    no_ivt = {k: v for k, v in SUBST.items() if k != "segment.ivt_address"}
 
-    def one_assign(body_fn, target):
-        def g():
-            for s in ast.walk(ast.Module(body=body_fn() or [], type_ignores=[])):
-                if isinstance(s, ast.Assign) and len(s.targets) == 1 and ast.unparse(s.targets[0]) == target:
-                    return [s]
+    def ivt_self():
+        f = prepared(HSEG, "IvtHabSegment", "load_from_config", subst=no_ivt)
+        got = at_assign("segment.ivt_address")(f) if f is not None else None
+        if not got:
             return None
-        return g
+        stmts = slice_value(f, got[0], got[1], ["start_address", "ivt_offset"])
+        return None if stmts is None else _synth("ivt_self", ["start_address", "ivt_offset"], stmts)
 
-    add("ivtSelfAddress", f"{HSEG}::IvtHabSegment.load_from_config (ivt_address)", ["start_address", "ivt_offset"], "Int",
-        from_stmts("ivt_self", ["start_address", "ivt_offset"], one_assign(ivt_body, "segment.ivt_address"), target="segment.ivt_address"))
+    add("ivtSelfAddress", f"{HSEG}::IvtHabSegment.load_from_config (ivt_address)", ["start_address", "ivt_offset"], "Int", ivt_self)
     add("ivtBdtAddress", f"{HSEG}::IvtHabSegment.load_from_config (bdt_address)", ["ivt_address", "ivt_size"], "Int",
-        from_stmts("ivt_bdt", ["ivt_address", "ivt_size"], one_assign(ivt_body, "segment.bdt_address"), target="segment.bdt_address"))
+        sliced("ivt_bdt", ["ivt_address", "ivt_size"], HSEG, "IvtHabSegment", "load_from_config", at_assign("segment.bdt_address")))
     add("ivtDcdAddress", f"{HSEG}::IvtHabSegment.load_from_config (dcd_address)", ["ivt_address"], "Int",
-        from_stmts("ivt_dcd", ["ivt_address"], one_assign(ivt_body, "segment.dcd_address"), target="segment.dcd_address"))
+        sliced("ivt_dcd", ["ivt_address"], HSEG, "IvtHabSegment", "load_from_config", at_assign("segment.dcd_address")))
 
     # 8. CSF segment offset (relative to the IVT)
-    def csf_off():
-        f = cls_fun(HSEG, "CsfHabSegment", "load_from_config")
-        if not f:
-            return None
-        st = [s for s in f.body if isinstance(s, ast.Assign) and isinstance(s.targets[0], ast.Name) and s.targets[0].id in ("image_len", "offset")]
-        return st[:3] if len(st) >= 3 else None
-
     add("csfOffset", f"{HSEG}::CsfHabSegment.load_from_config (offset)", ["initial_load_size", "app_len", "ivt_offset"], "Int",
-        from_stmts("csf_offset", ["initial_load_size", "app_len", "ivt_offset"], csf_off, extra_return="offset"))
+        sliced("csf_offset", ["initial_load_size", "app_len", "ivt_offset"], HSEG, "CsfHabSegment", "load_from_config",
+               at_return(arg=OFFSET_ARG)))
 
     # 9. BDT length and the segment that ends the image
-    def bdt_body():
-        f = cls_fun(HSEG, "BdtHabSegment", "load_from_config")
-        return f.body if f else None
-
+    END_SEG = {".load_from_config": "end_seg"}
     add("bdtAppLength", f"{HSEG}::BdtHabSegment.load_from_config (app_length)", ["ivt_offset", "end_offset", "end_size"], "Int",
-        from_stmts("bdt_len", ["ivt_offset", "end_offset", "end_size"], one_assign(bdt_body, "segment.app_length"), target="segment.app_length"))
+        sliced("bdt_len", ["ivt_offset", "end_offset", "end_size"], HSEG, "BdtHabSegment", "load_from_config",
+               at_assign("segment.app_length"), canon=END_SEG))
 
     def bdt_sel():
-        for s in ast.walk(ast.Module(body=bdt_body() or [], type_ignores=[])):
-            if isinstance(s, ast.Assign) and ast.unparse(s.targets[0]) == "end_seg_class" and isinstance(s.value, ast.Subscript):
-                return [ast.Return(value=s.value.slice)]
+        """which segment class ends the image: 1 when the expression selects CsfHabSegment, 0 for AppHabSegment
+        (`{0: App, 1: Csf}[sel]`, a list `[App, Csf][sel]`, or `Csf if cond else App`)"""
+        f = prepared(HSEG, "BdtHabSegment", "load_from_config", canon=END_SEG)
+        if f is None:
+            return None
+
+        def table_of(node, depth=0):
+            if isinstance(node, ast.Dict):
+                try:
+                    return {menvs[HSEG].eval(k, cls="BdtHabSegment"): _dotted(v) for k, v in zip(node.keys, node.values)}
+                except NotConst:
+                    return None
+            if isinstance(node, (ast.List, ast.Tuple)):
+                return {i: _dotted(v) for i, v in enumerate(node.elts)}
+            if isinstance(node, ast.Name) and depth < 2:
+                for n in ast.walk(f):
+                    if isinstance(n, (ast.Assign, ast.AnnAssign)):
+                        tg = n.targets[0] if isinstance(n, ast.Assign) else n.target
+                        if isinstance(tg, ast.Name) and tg.id == node.id and n.value is not None:
+                            return table_of(n.value, depth + 1)
+            return None
+
+        one, zero = ast.Constant(value=1), ast.Constant(value=0)
+        for n in sorted((x for x in ast.walk(f) if isinstance(x, (ast.Subscript, ast.IfExp))), key=lambda x: (x.lineno, x.col_offset)):
+            if isinstance(n, ast.Subscript) and "flags" in _uses(n.slice):
+                tb = table_of(n.value)
+                if tb and set(tb.values()) == {"AppHabSegment", "CsfHabSegment"} and len(tb) == 2:
+                    k_csf = next(k for k, v in tb.items() if v == "CsfHabSegment")
+                    k_app = next(k for k, v in tb.items() if v == "AppHabSegment")
+                    if (k_app, k_csf) == (0, 1):
+                        return _synth("bdt_sel", ["flags"], [ast.Return(value=n.slice)])
+                    return _synth("bdt_sel", ["flags"], [ast.Return(value=ast.IfExp(
+                        test=ast.Compare(left=n.slice, ops=[ast.Eq()], comparators=[ast.Constant(value=k_csf)]), body=one, orelse=zero))])
+            if isinstance(n, ast.IfExp) and "flags" in _uses(n.test) and {_dotted(n.body), _dotted(n.orelse)} == {"AppHabSegment", "CsfHabSegment"}:
+                csf_first = _dotted(n.body) == "CsfHabSegment"
+                return _synth("bdt_sel", ["flags"], [ast.Return(value=ast.IfExp(test=n.test, body=one if csf_first else zero,
+                                                                                orelse=zero if csf_first else one))])
         return None
 
-    add("bdtEndSel", f"{HSEG}::BdtHabSegment.load_from_config (end segment selector: 0 = APP, 1 = CSF)", ["flags"], "Int",
-        from_stmts("bdt_sel", ["flags"], bdt_sel))
+    add("bdtEndSel", f"{HSEG}::BdtHabSegment.load_from_config (end segment selector: 0 = APP, 1 = CSF)", ["flags"], "Int", bdt_sel)
     add("bdtSegOffset", f"{HSEG}::BdtHabSegment.load_from_config (offset)", [], "Int",
-        from_stmts("bdt_off", [], one_assign(bdt_body, "offset"), target="offset"))
+        sliced("bdt_off", [], HSEG, "BdtHabSegment", "load_from_config", at_return(arg=OFFSET_ARG), canon=END_SEG))
 
     # 10. application segment
-    def app_body():
-        f = cls_fun(HSEG, "AppHabSegment", "load_from_config")
-        return f.body if f else None
-
     add("appOffset", f"{HSEG}::AppHabSegment.load_from_config (offset)", ["initial_load_size", "ivt_offset"], "Int",
-        from_stmts("app_off", ["initial_load_size", "ivt_offset"], one_assign(app_body, "offset"), target="offset"))
+        sliced("app_off", ["initial_load_size", "ivt_offset"], HSEG, "AppHabSegment", "load_from_config", at_return(arg=OFFSET_ARG)))
 
     def app_al():
-        for s in app_body() or []:
-            if isinstance(s, ast.If) and "flags" in ast.unparse(s.test):
-                return [ast.Return(value=s.test)]
-        return None
+        """the condition under which the application is padded to 16 bytes: the test guarding the `align_block(…)` call"""
+        f = prepared(HSEG, "AppHabSegment", "load_from_config")
+        if f is None:
+            return None
 
-    add("appAligned", f"{HSEG}::AppHabSegment.load_from_config (16-byte alignment condition)", ["flags"], "Bool",
-        from_stmts("app_al", ["flags"], app_al))
+        def guard(node, test):
+            for c in ast.iter_child_nodes(node):
+                if isinstance(c, ast.Call) and (_dotted(c.func) or "").split(".")[-1] == "align_block":
+                    return test
+                if isinstance(c, (ast.If, ast.IfExp)):
+                    for sub in ([c.body] if isinstance(c, ast.IfExp) else c.body):
+                        if isinstance(sub, ast.Call) and (_dotted(sub.func) or "").split(".")[-1] == "align_block":
+                            return c.test
+                        r = guard(sub, c.test)
+                        if r is not None:
+                            return r
+                    for sub in ([c.orelse] if isinstance(c, ast.IfExp) else c.orelse):
+                        neg = ast.UnaryOp(op=ast.Not(), operand=c.test)
+                        if isinstance(sub, ast.Call) and (_dotted(sub.func) or "").split(".")[-1] == "align_block":
+                            return neg
+                        r = guard(sub, neg)
+                        if r is not None:
+                            return r
+                    r = guard(c.test, test)
+                else:
+                    r = guard(c, test)
+                if r is not None:
+                    return r
+            return None
+
+        t = guard(f, None)
+        return None if t is None else _synth("app_al", ["flags"], [ast.Return(value=t)])
+
+    add("appAligned", f"{HSEG}::AppHabSegment.load_from_config (16-byte alignment condition)", ["flags"], "Bool", app_al)
 
     # 11. DCD segment offset
-    def dcd_body():
-        f = cls_fun(HSEG, "DcdHabSegment", "load_from_config")
-        return f.body if f else None
-
     add("dcdSegOffset", f"{HSEG}::DcdHabSegment.load_from_config (offset)", [], "Int",
-        from_stmts("dcd_off", [], one_assign(dcd_body, "offset"), target="offset"))
+        sliced("dcd_off", [], HSEG, "DcdHabSegment", "load_from_config", at_return(arg=OFFSET_ARG)))
 
     # 12. signed-block address / start, signed image prefix
     def blk(kw):
@@ -989,34 +1246,35 @@ def gen_HabFuns():
         from_stmts("blk_start", ["ivt_offset", "offset"], blk("start")))
 
     def prefix():
+        """the bound of the `<image>[: bound]` slice that cuts the exported image in front of the CSF"""
         f = cls_fun(HCON, "HabContainer", "update_csf")
-        for n in ast.walk(f) if f else []:
-            if isinstance(n, ast.Assign) and ast.unparse(n.targets[0]) == "image" and isinstance(n.value, ast.Subscript) \
-                    and isinstance(n.value.slice, ast.Slice) and n.value.slice.lower is None and n.value.slice.upper is not None:
-                return [ast.Return(value=n.value.slice.upper)]
-        return None
+        subs = sorted((n for n in ast.walk(f) if isinstance(n, ast.Subscript) and isinstance(n.slice, ast.Slice)
+                       and n.slice.lower is None and n.slice.upper is not None and n.slice.step is None),
+                      key=lambda n: (n.lineno, n.col_offset)) if f else []
+        return [ast.Return(value=subs[0].slice.upper)] if subs else None
 
     add("signedPrefixLen", f"{HCON}::HabContainer.update_csf (image[: …])", ["ivt_offset", "csf_offset"], "Int",
         from_stmts("prefix", ["ivt_offset", "csf_offset"], prefix))
 
     # 13. parse side: segment offsets from the IVT pointers
-    def parse_assign(cls, target):
-        def g():
-            f = cls_fun(HSEG if cls != "HabContainer" else HCON, cls, "parse")
-            for n in ast.walk(f) if f else []:
-                if isinstance(n, ast.Assign) and ast.unparse(n.targets[0]) == target:
-                    return [n]
-            return None
-        return g
-
     add("parseBdtOffset", f"{HSEG}::BdtHabSegment.parse (offset)", ["bdt_address", "ivt_address"], "Int",
-        from_stmts("p_bdt", ["bdt_address", "ivt_address"], parse_assign("BdtHabSegment", "offset"), target="offset"))
+        sliced("p_bdt", ["bdt_address", "ivt_address"], HSEG, "BdtHabSegment", "parse", at_return(arg=OFFSET_ARG), canon=IVT_PARSE))
     add("parseDcdOffset", f"{HSEG}::DcdHabSegment.parse (offset)", ["dcd_address", "ivt_address"], "Int",
-        from_stmts("p_dcd", ["dcd_address", "ivt_address"], parse_assign("DcdHabSegment", "offset"), target="offset"))
+        sliced("p_dcd", ["dcd_address", "ivt_address"], HSEG, "DcdHabSegment", "parse", at_return(arg=OFFSET_ARG), canon=IVT_PARSE))
     add("parseCsfOffset", f"{HSEG}::CsfHabSegment.parse (offset)", ["csf_address", "ivt_address"], "Int",
-        from_stmts("p_csf", ["csf_address", "ivt_address"], parse_assign("CsfHabSegment", "offset"), target="offset"))
+        sliced("p_csf", ["csf_address", "ivt_address"], HSEG, "CsfHabSegment", "parse", at_return(arg=OFFSET_ARG), canon=IVT_PARSE))
+
+    def ctor_kw(kw):
+        """value handed as keyword `kw` to the `cls(…)` HabContainer.parse returns"""
+        def pick(f):
+            rc = _ret_ctor(f)
+            if rc is None:
+                return None
+            return rc[0], next((k.value for k in rc[1].keywords if k.arg == kw), None)
+        return pick
+
     add("parseIvtOffset", f"{HCON}::HabContainer.parse (ivt_offset)", ["ivt_address", "app_start"], "Int",
-        from_stmts("p_ivtoff", ["ivt_address", "app_start"], parse_assign("HabContainer", "ivt_offset"), target="ivt_offset"))
+        sliced("p_ivtoff", ["ivt_address", "app_start"], HCON, "HabContainer", "parse", ctor_kw("ivt_offset"), canon=IVT_PARSE))
 
     # 14. XMCD header bytes (XMCDHeader.export): operator precedence matters there
     def xmcd_arg(i):
